@@ -72,6 +72,16 @@ func init() {
 	extend("C15", "C15_actgrad",
 		func() []Item { return actItems(1, 1, 4, []int64{0}) },
 		func() []Item { return actItems(1, 1, 5, []int64{0}) })
+	fanItems := func() []Item {
+		var out []Item
+		for _, a := range []string{"Relu", "LeakyRelu", "Sigmoid", "Tanh"} {
+			for fan := int64(1); fan <= 2; fan++ {
+				out = append(out, Item{P: map[string]int64{"rank": 1, "maxdim": 2, "nilconf": 0, "upstream": 1, "fan": fan}, S: map[string]string{"act": a}})
+			}
+		}
+		return out
+	}
+	extend("C15", "C15_actgrad", fanItems, fanItems)
 	extend("C13", "C13_lossgrad",
 		func() []Item { return lossItems(4, 1, []int64{0}) },
 		func() []Item { return lossItems(5, 1, []int64{0}) })
